@@ -132,7 +132,7 @@ func GenTLS(rng *rand.Rand, thorough bool, emit func(*Sx)) {
 					g.cmd("QUIT", 221)
 					f.expect(g.codes...)
 					f.add(L(A("must-mail"), XS("intls@x")))
-					f.add(L(A("expect-last-data"), XS(".inside tls\r\nsecond line\r\n"), A("eof")))
+					f.add(L(A("for"), A("C01"), L(A("expect-last-data"), XS(".inside tls\r\nsecond line\r\n"), A("eof"))))
 					f.add(L(A("must-not-mail"), XS("early@x")))
 					f.add(L(A("must-not-mail"), XS("r2@x")))
 					tlsRaws := segStream(rng, g.out, nil, []int{1, 3, 0}[seg], rawEOF)
